@@ -252,7 +252,9 @@ pub trait String:
 
             let new_len = self.len() + bytes.len();
             self.set_len(new_len as u64);
-            if new_len < self.capacity() {
+            // strings that store their terminator inside data() (capacity + 1 bytes) must
+            // also be terminated when they are filled up to their capacity
+            if new_len < self.data().len() {
                 self.data_mut()[new_len].write(0);
             }
         }
